@@ -1,13 +1,115 @@
 """C20 — composite analytics terminate within range and respect their defining relations. Engine K."""
+import re
+
 import kani_engine
+from common import log
 
-RULE = "draft"
+RULE = ("one Kani harness per (analytic, law, series length N); half_life: the autocorrelation table (one f64 per lag, incl. "
+        "NaN/inf), min_periods and the break lag L* are kani::any(); winsorize: data, multiplier / quantile level and the "
+        "recorder answers (bounds, MAD) are kani::any(); ranks: both series are kani::any() under the same-order assumption; "
+        "a harness is non-trivial when all its kani::cover! witnesses (L* = 0, L* = len-1, NaN / tie after L*, values below / "
+        "inside / above the interval, a null, a tie) are SATISFIED")
 
-MANIFEST = {"engine": "K", "technique": "draft", "design_ref": "DESIGN.md 3/C20", "level_text": "draft", "level_note": "draft"}
+MANIFEST = {
+    "engine": "K",
+    "technique": "bounded model checking (Kani/CBMC) of half_life, winsorize and the Spearman branch of vcorr over the compiled "
+                 "code, with the correlation / quantile / median / mean-variance callees replaced by recording oracle stubs",
+    "design_ref": "DESIGN.md 3/C20",
+    "level_text": "CBMC decides for every autocorrelation table over lags 1..N-1 (N = 0..=9, any f64 incl. NaN) that half_life "
+                  "terminates within the derived loop bound, does not panic and returns a lag in 1..=N-1 (0 iff N < 2), and that for "
+                  "tables above 0.5 exactly up to a lag L* it returns min(L*+1, N-1); for all data of length <= 4 (small integers or "
+                  "null), all multipliers / quantile levels on a grid and symbolic bounds that winsorize (Quantile, Median, Sigma) "
+                  "asks for exactly the documented bounds and clips to them (one output per input, null stays null, inside unchanged, "
+                  "outside onto the nearer bound, order preserved, degenerate cases unchanged); that vrank of two Option<i32> series "
+                  "(N <= 3 quick, 4 thorough) with the same order relation is identical; and that vcorr(Spearman) is Pearson of the two rank vectors",
+    "level_note": "trusted: Kani/CBMC/CaDiCaL and the oracle stubs (vcorr_pearson -> table[lag]; vshift -> lag recorder in the "
+                  "symbolic-table families, real vshift in the wiring family; vquantile / vmedian / vmean_var -> argument-checking "
+                  "recorders); that the stubbed callees compute what their names say is C11/C12/C13; bounds: N <= 9 (half_life), "
+                  "N <= 4 (winsorize), N <= 4 (ranks)",
+}
+
+STUB_HARNESS = re.compile(r"c20_(half_life_(any|first|tie|wiring)|winsorize|spearman)_")
+
+# failing assertion of an oracle-stub harness (harness regex, assertion regex) -> native witness harness
+WITNESS = [
+    (r"c20_half_life_(any|first|wiring)_n\d+$", r"^attempt to subtract with overflow$", "c20_half_life_witness_ramp_n5"),
+    (r"c20_half_life_tie_n\d+$", r"^half_life: a tie \(== 0\.5\) or NaN counts as not above 0\.5", "c20_half_life_witness_nan_midpoint_n9"),
+]
+
+
+def explained_by(why, reproduced):
+    """Witness harness name when EVERY failed check of the stub harness named in `why` is covered by a witness that
+    reproduced natively, else None."""
+    import ast
+    m = re.search(r"harness (\S+): failed checks (\[.*\]) but counterexample did not reproduce natively", why)
+    if not m:
+        return None
+    try:
+        descs = ast.literal_eval(m.group(2))
+    except (ValueError, SyntaxError):
+        return None
+    wits = set()
+    for d in descs:
+        w = [wit for hpat, dpat, wit in WITNESS if re.search(hpat, m.group(1)) and re.search(dpat, d) and wit in reproduced]
+        if not w:
+            return None
+        wits.add(w[0])
+    return ", ".join(sorted(wits)) if wits else None
 
 
 def check(v, tier, opts):
     opts = dict(opts)
+    # termination is part of the property: a loop that exceeds the derived bound is a violation, not "bound too small"
     opts["unwind_is_violation"] = True
-    kani_engine.decide(v, "C20", tier, opts)
+    v.functions.update(["tevec::agg::AggValidFinal::half_life", "tevec::agg::AggValidFinal::vcorr (Spearman branch)",
+                        "tevec::map::MapValidFinal::winsorize (Quantile / Median / Sigma)", "tea_map::MapValidBasic::vclip",
+                        "tea_map::MapValidBasic::vshift (wiring / witness harnesses)", "tea_map::MapValidVec::vrank"])
+    v.bounds.append("half_life: N in 0..=9, table[lag] any f64 (incl. NaN, +-inf), min_periods omitted or 1..=N+1, L* in 0..=N-1")
+    v.bounds.append("winsorize: N in {0,2,4} quick / 0..=4 thorough, data small integers in [-9,9] or NaN, multiplier k in {0,0.5,..,4} or "
+                    "omitted, q in {0,0.05,..,0.5} or omitted, quantile bounds half-integers in [-10,10] or NaN (lower <= upper), "
+                    "MAD half-integers in [0,6] or NaN, median in {NaN, 1.5}, (mean, variance) in {(NaN,2.25),(0.5,NaN),(0.5,0),(0.5,EPS),(0.5,2.25)}")
+    v.bounds.append("ranks: Option<i32> series, N in {2,3} quick / 4 thorough, unconstrained values; Spearman wiring N in {0,2} quick / 3 thorough")
+    v.stubs.update([
+        "tea_core AggValidBasic::vcorr_pearson -> table[lag] oracle (half_life) / argument recorder (Spearman)",
+        "tea_map MapValidBasic::vshift -> lag recorder (half_life any/first/tie families only; wiring and witness families run the real vshift)",
+        "tea_agg VecAggValidExt::vquantile, ::vmedian and tea_core AggValidBasic::vmean_var -> argument-checking recorders "
+        "returning the harness-chosen bounds (winsorize)",
+    ])
+    v.assumptions.append("half_life looks at a correlation only through `<= 0.5`, `< 0.5`, `> 0.5` and `is_nan`; the wiring family "
+                         "therefore uses the concrete representatives 0.75 / 0.25, the other families symbolic values")
+    v.assumptions.append("winsorize: the answers that decide WHICH boxed iterator comes back (median null or not; mean / variance "
+                         "null, at the floor or above) are concrete per call, everything else symbolic (CBMC cannot exclude the "
+                         "nested Box<dyn TrustedLen> recursion otherwise: out of memory even on the empty input)")
+    v.assumptions.append("quantile recorder answers satisfy lower <= upper (monotonicity of quantiles in q is C12); MAD >= 0; k >= 0")
+    v.outside.append("numeric value of the correlation / quantiles / median / mean / variance (C11, C12); vshift itself (C13); "
+                     "q outside [0, 0.5], negative multipliers; backends other than Vec<f64> ([f64; 0] for the empty input); "
+                     "native replay of oracle-stub counterexamples (Kani stubs do not exist natively: the "
+                     "c20_half_life_witness_* harnesses pair concrete data with the table of their own autocorrelations instead)")
+    # Oracle-stub harnesses are not replayed natively: Kani stubs do not exist in a native run, the replay could only
+    # run the real callees on unrelated data (the harnesses drain the recorded values and return in that case). Skipping
+    # the replay saves one Kani run plus one native test build per failing stub harness.
+    orig_playback = kani_engine.playback
+
+    def playback(prop, tier_, name, timeout_s, mem_gb):
+        if STUB_HARNESS.search(name):
+            return None, "counterexample did not reproduce natively: oracle-stub harness, not replayed"
+        return orig_playback(prop, tier_, name, timeout_s, mem_gb)
+
+    kani_engine.playback = playback
+    try:
+        kani_engine.decide(v, "C20", tier, opts)
+    finally:
+        kani_engine.playback = orig_playback
+    # A counterexample of an oracle-stub harness cannot be replayed natively. When the witness harness for the same
+    # failing assertion did reproduce natively (it is in v.violations), the stub harness failure is explained by it.
+    reproduced = " ".join(k for k, _, _ in v.violations)
+    keep = []
+    for why in v.inconclusive:
+        hit = explained_by(why, reproduced)
+        if hit:
+            log("STUB-HARNESS-FAILS property=C20 " + why.split(" but ")[0] + " — decided by Kani under the oracle stubs, not "
+                "replayable natively; same defect reproduced natively by " + hit)
+        else:
+            keep.append(why + " — no native witness harness covers this" if STUB_HARNESS.search(why) else why)
+    v.inconclusive = keep
     return v.finish(RULE)
